@@ -876,18 +876,25 @@ class Facts:
         return out
 
     # ---- call graph
-    def callgraph(self):
-        if self._cg is not None:
-            return self._cg
+    def callgraph(self, cha="local"):
+        """Call graph over local function keys.
+
+        Resolved local callees and closure creation always give edges.  Unresolved trait-method calls are
+        expanded by class-hierarchy analysis: cha='local' only for traits *defined in this crate* (Accept,
+        Transport, Protocol, PoolableConnection, HasConnectionInfo, ...), cha='all' for every trait with a
+        local impl (Future::poll, Service::call, ... -> very coarse), cha='none' never."""
+        if self._cg is None:
+            self._cg = {}
+        if cha in self._cg:
+            return self._cg[cha]
         cg = defaultdict(set)
         for k, f in self.fns.items():
             for c in f.calls(noise=True):
                 if c.res and c.t.get("resl") and c.res in self.fns:
                     cg[k].add(c.res)
-                elif c.decl:
-                    # unresolved trait method: class-hierarchy expansion over local impls
+                elif c.decl and cha != "none":
                     m = re.match(r"^(.*)::([A-Za-z_0-9]+)$", norm(c.decl))
-                    if m:
+                    if m and (cha == "all" or m.group(1) in self.traits):
                         for ik in self.trait_impls.get((m.group(1), m.group(2)), []):
                             if ik in self.fns:
                                 cg[k].add(ik)
@@ -904,7 +911,7 @@ class Facts:
                         kk = a.get("k")
                         if kk and kk.get("closure") in self.fns:
                             cg[k].add(kk["closure"])
-        self._cg = cg
+        self._cg[cha] = cg
         return cg
 
     def callers(self, key):
@@ -922,8 +929,8 @@ class Facts:
             out.extend(f.calls(*names))
         return out
 
-    def reach(self, entries):
-        cg = self.callgraph()
+    def reach(self, entries, cha="local"):
+        cg = self.callgraph(cha)
         seen = set(entries)
         prev = {e: None for e in entries}
         dq = deque(entries)
